@@ -3,7 +3,7 @@
 //! symbolic where the format has them.
 #![allow(unused_imports)]
 
-use crate::c02::Enc;
+use crate::common::Enc;
 use crate::common::*;
 use crate::silent::*;
 use gamedig::protocols::gamespy;
